@@ -356,8 +356,11 @@ def forced_part(ctx, ws):
             bad += 1
             if len(ctx.disagreements) < 50:
                 ctx.disagreements.append(("conc", line, a, m))
+    dpath = os.path.join(core.VERIF, "replays", "C03", "disagreements-%s.txt" % ctx.tier)
+    if os.path.exists(dpath):
+        os.remove(dpath)
     if ctx.disagreements:
-        with open(os.path.join(core.VERIF, "replays", "C03", "disagreements-%s.txt" % ctx.tier), "w") as f:
+        with open(dpath, "w") as f:
             for _, c, a, m in ctx.disagreements:
                 f.write("%s\n   impl : %s\n   model: %s\n" % (c, a, m))
     ctx.oblige("tie:correspondence:conc (%d forced schedules on the real ProjectManager)" % len(keep), bad == 0,
@@ -516,10 +519,12 @@ def text_of(doc, ver):
         return "class aX\n\nproc P_X(A : Int4)\n   var x : Int4\n   var y : aD\n   x = y.\nendProc\n"
     if doc in ("BD", "BE"):
         return "class a%s\n\nF_B : Int4\n\nproc M\nendProc\n" % doc
-    l = ["class a%s (aB%s)" % (doc, doc), "", "proc P_%s_%d(A : Int4)" % (doc, ver), "   var x : Int4", "   var u_%s_%d : Int4" % (doc, ver),
-         "   x = self.F_%s_%d + A" % (doc, ver), "   x = self.", "endProc", ""]
+    fx = "x" * ver
+    l = ["class a%s (aB%s)" % (doc, doc), "", "F_%s_%d%s : Int4" % (doc, ver, fx), "G_%s_%d : Int4" % (doc, ver), "",
+         "proc P_%s_%d(A : Int4)" % (doc, ver), "   var x : Int4", "   var u_%s_%d : Int4" % (doc, ver),
+         "   x = A + self.F_%s_%d%s" % (doc, ver, fx), "   x = self.", "endProc", ""]
     l += ["const cK%d = 'k'" % i for i in range(ver)]
-    l += ["F_%s_%d : Int4" % (doc, ver), "g_%s_%d : Int4" % (doc, ver), "", "proc M", "endProc", ""]
+    l += ["", "proc q_%s_%d" % (doc, ver), "endProc", "", "proc M", "endProc", ""]
     return "\n".join(l)
 
 
@@ -534,11 +539,11 @@ def bb_request(root, kind, doc):
     if kind == "diag":
         return "textDocument/diagnostic", lsp.td(u)
     if kind == "compl":
-        return "textDocument/completion", lsp.tdpos(u, 6, len("   x = self."))
+        return "textDocument/completion", lsp.tdpos(u, 9, len("   x = self."))
     if kind == "def":
-        return "textDocument/definition", lsp.tdpos(u, 5, len("   x = self.") + 1)
+        return "textDocument/definition", lsp.tdpos(u, 8, len("   x = A + self.") + 1)
     if kind == "defp":
-        return "textDocument/definition", lsp.tdpos(u, 5, len("   x = self.F_%s_1 + A" % doc) - 1)
+        return "textDocument/definition", lsp.tdpos(u, 8, len("   x = "))
     if kind == "prep":
         return "textDocument/prepareTypeHierarchy", lsp.tdpos(u, 0, 7)
     if kind in ("subc", "subm"):
